@@ -256,6 +256,45 @@ def E2() -> bool:
     return run(body_E2, "X", {})
 
 
+# -- E3: two complete sub-actions at arbitrary sibling positions of a wide, otherwise missing task -----
+def body_E3(ctx):
+    sh = ctx.shard
+    W = sh.get("max_position", 30)
+    p = 2 + ctx.choose(W - 1, "position of the first sub-action")
+    q = 2 + ctx.choose(W - 1, "position of the second sub-action")
+    if p == q:
+        return
+    u = "wide"
+
+    def sub(pos):
+        return [
+            {"task_uuid": u, "task_level": [pos, 1], "timestamp": 1.0, "action_type": "s", "action_status": "started"},
+            {"task_uuid": u, "task_level": [pos, 2], "timestamp": 2.0, "action_type": "s", "action_status": "succeeded"},
+        ]
+
+    msgs = sub(p) + sub(q)
+    order = ctx.choose(3, "arrival order")
+    seq = [msgs, msgs[2:] + msgs[:2], [msgs[0], msgs[2], msgs[3], msgs[1]]][order]
+    try:
+        t = fold(seq)
+    except Exception as e:
+        ctx.fail("parsing %r raised %r" % ([m["task_level"] for m in seq], e))
+    got, exp = norm(actual_state(t)), norm(ref_state(seq))
+    ctx.check(got == exp, "sub-actions at positions %d and %d arriving as %r: parser state %r, reference %r", p, q, [m["task_level"] for m in seq], got, exp)
+    ctx.check(not t.is_complete(), "task with almost everything missing reported complete")
+    ctx.nontrivial((p, q, order))
+    if len(str(p)) != len(str(q)):
+        ctx.reached("different-digit-counts")
+    ctx.sample({"positions": [p, q], "order": order})
+
+
+def E3() -> bool:
+    """
+    post: _
+    """
+    return run(body_E3, "X", {})
+
+
 # -- L1: the completeness rule with a symbolic end position (Mode S) ---------------------------
 def body_L1(ctx, e, status_failed):
     c = ctx.shard.get("children", 2)
@@ -332,6 +371,18 @@ OBLIGATIONS = [
         twin=[{"N": 3, "D": 2, "max_msgs": 5, "twin_label": "dropped"}],
         timeout={"quick": 100, "thorough": 1200},
         bounds={"quick": "2-3 tasks, <= 5 messages in total, every interleaving preserving per-task order, 0 or 1 dropped message", "thorough": "<= 7 messages in total"},
+    ),
+    Ob(
+        "E3",
+        E3,
+        body_E3,
+        "X",
+        desc="subset of a wide task: two complete sub-actions at any two sibling positions in 2..30, three arrival orders: state equals the reference (both marked complete, parent incomplete)",
+        functions=["Task.add", "Task._insert_action"],
+        shards=lambda tier: [dict({"max_position": 30 if tier == "quick" else 120}, prefix=[i]) for i in range((30 if tier == "quick" else 120) - 1)] if tier != "quick" else [{"max_position": 30, "prefix": [i]} for i in range(29)],
+        twin=[{"max_position": 30, "twin_label": "different-digit-counts"}],
+        timeout={"quick": 100, "thorough": 600},
+        bounds={"quick": "positions 2..30 x 2..30, 3 arrival orders", "thorough": "positions 2..120"},
     ),
     Ob(
         "L1",
